@@ -22,6 +22,8 @@ BASIC = [
      "2 new-shm 2 m1 1 ro", "2 rd 2 0", "obs"],
     # names that differ only in the first byte (m0/m1) or only in the last one (m2/m3): four different memories
     ["0 new-shm 0 m0 100", "0 new-shm 1 m1 200", "1 new-shm 2 m2 300", "1 new-shm 3 m3 400", "0 wr 0 5 1", "0 wr 1 5 2", "1 wr 2 5 3", "1 wr 3 5 4", "obs", "0 lock 0", "1 lock 2", "obs", "0 lock 1", "1 lock 3", "obs"],
+    # a creator whose descriptor 0 is free (a daemon): the exclusive shm_open returns descriptor 0; owner free, then a fresh segment of the new size
+    ["2 close0", "2 new-shm 0 m3 %d" % P, "2 wr 0 0 165", "obs", "1 new-shm 1 m3 0", "1 rd 1 0", "1 free 1", "2 free 0", "obs", "1 new-shm 2 m3 %d" % (2 * P), "1 rd 2 0", "obs", "2 kill"],
     # a fresh name with size 0 cannot be created
     ["0 new-shm 0 m2 0", "obs", "0 new-shm 0 m2 1", "obs"],
 ]
@@ -165,7 +167,7 @@ def run(chk):
     for (n, it) in (((4, 20000), (8, 8000), (16, 3000)) if thorough else ((3, 3000), (6, 1000))):
         ipc.run_stress(chk, exe, ["stress-shm", n, it], "C07 lock stress")
     # System V variant (pshm-sysv.c + psemaphore-sysv.c linked instead of the posix files): API-level histories against the spec column
-    Rs = ipc_sysv.run_c07(chk, cfg, BASIC)
+    Rs = ipc_sysv.run_c07(chk, cfg, [c for c in BASIC if not any(" close0" in o for o in c)])
     if getattr(Rs, "new_violations", 0):
         R.found = True
     R.conclude(BASIC + races[-60:] + crash + eintr + fails + races[:-60] + rnd, "C07 shared memory")
